@@ -68,9 +68,15 @@ func (H) Generate(r *simrt.Rand, tier string) any {
 	}
 	for i := 0; i < n; i++ {
 		o := Op{K: []string{"add", "add", "add", "remove", "remove", "removeat", "get", "index", "contains", "len"}[r.Intn(10)], V: r.Intn(s.U)}
-		if s.Ctor == "less-ties" && (o.K == "remove" || o.K == "index" || o.K == "contains") {
+		if s.Ctor == "less-ties" && o.K == "remove" {
 			// with a less function that cannot tell some values apart the statement
-			// promises order and multiset only, not positions or look-ups
+			// promises order and multiset only: Remove may fail to find a value that is
+			// there, and may take out any element that less cannot tell from its argument
+			// (NewSorted's documentation says so), but exactly one, and no other
+			o.K = "removetie"
+		}
+		if s.Ctor == "less-ties" && (o.K == "index" || o.K == "contains") {
+			// ... and nothing about positions or look-ups
 			o.K = "add"
 		}
 		if o.K == "removeat" || o.K == "get" {
@@ -194,6 +200,46 @@ func runTies(sc *Scenario) (*core.Violation, uint64, int) {
 			model[e]++
 			size++
 			changes++
+		case "removetie":
+			// o.V%3: 0 = a value that is in the collection, 1 = a value that is not in
+			// it but that less cannot tell from one that is, 2 = a key that is absent
+			var e tie
+			switch {
+			case size == 0 || o.V%3 == 2:
+				e = tie{1000 + o.V, 0}
+			case o.V%3 == 0:
+				e = s.Get((o.V / 3) % size)
+			default:
+				e = tie{s.Get((o.V / 3) % size).K, -1}
+			}
+			before := map[tie]int{}
+			for j := 0; j < s.Len(); j++ {
+				before[s.Get(j)]++
+			}
+			pos := s.Remove(e)
+			if pos >= 0 {
+				// NewSorted documents that "any of the equivalent elements may be the one
+				// being removed" when less cannot tell them apart: which one is free, but
+				// it must be exactly one, and one that less cannot tell from e
+				for j := 0; j < s.Len(); j++ {
+					before[s.Get(j)]--
+				}
+				var gone []tie
+				for k, n := range before {
+					for ; n > 0; n-- {
+						gone = append(gone, k)
+					}
+					if n < 0 {
+						return &core.Violation{Signature: "contents-mismatch:ties", Detail: fmt.Sprintf("op %d Remove(%v) returned %d and afterwards %v occurs more often than before", i, e, pos, k)}, h, changes
+					}
+				}
+				if len(gone) != 1 || less(gone[0], e) || less(e, gone[0]) {
+					return &core.Violation{Signature: "removed-another-value:ties", Detail: fmt.Sprintf("op %d Remove(%v) returned %d and took out %v (less compares keys only; exactly one element that less cannot tell from the argument may go)", i, e, pos, gone)}, h, changes
+				}
+				model[gone[0]]--
+				size--
+				changes++
+			}
 		case "removeat":
 			in := o.V >= 0 && o.V < size
 			var e tie
